@@ -64,6 +64,11 @@ for i in range(S.budget):
         g4[ef] = g3[0.15] / rng.uniform(1.1, 4.0) if rng.random() < 0.6 else dl * rng.uniform(0.3, 0.99)
         if g4[ef] < g3[0.15]:
             variants.append((f'4pt@{ef}', g4))
+    # a longer tabulated distribution whose top given fraction is close to 1 (the extrapolated top node must stay below 1)
+    g5 = dict(g3)
+    g5[0.97] = g3[0.85] * rng.uniform(1.1, 1.5)
+    g5[rng.choice([0.99, 0.995])] = g5[0.97] * rng.uniform(1.05, 1.4)
+    variants.append(('5pt-top', g5))
     for lab, inp in variants:
         where = {'input': inp, 'Dp': Dp, 'nu': nu, 'rhol': rhol, 'rhos': rhos, 'kind': lab}
         try:
